@@ -70,9 +70,39 @@ THEOREMS = THEOREMS + [
   fst (Prog.run (mp4_view e1 ms st1) (sanitize_prog cfg fuel) (mp4_view_init_at k e1 ms st1 data)) =
   fst (Prog.run (mp4_view e2 ms st2) (sanitize_prog cfg fuel) (mp4_view_init_at k e2 ms st2 data))"""),
 ]
-REQUIRES_FOR = {"C11_stack_refines_cursor_at": _ATREQ, "C11_same_result_mp4_at": _ATREQ}
-COQ_TARGETS = COQ_TARGETS + ["theories/Props/C11at.vo"]
-COQCHK = COQCHK + ["MS.Props.C11at"]
+_DREQ = ["From Coq Require Import List NArith Bool.", "From Coq.Strings Require Import Byte.",
+         "From MS Require Import Base.Bytes Base.Outcome Base.Prog Base.ProgSpec Base.Cursor Base.Adapters Base.AdaptersSpec Base.StackReader "
+         "Base.StackSpec Mp4.Header Mp4.Box Mp4.San Mp4.Spec Webp.Container Props.C11d.",
+         "Open Scope N_scope."]
+# finding D11 in its exact shape (Props/C11d.v): the seek limit of a reader only ever ADDS Io(InvalidInput/InvalidData); the verdict never differs
+THEOREMS = THEOREMS + [
+    ("C11_max_seek_only_adds_io", """forall (A : Type) (T : perr -> Prop) (p : prog A), propagating T p ->
+  forall (inp : input) (ms1 ms2 pos : N), ms1 <= ms2 ->
+  fst (run (cursor inp true ms1) p pos) = fst (run (cursor inp true ms2) p pos) \\/
+  exists e, (e = EInvalidInput \\/ e = EInvalidData) /\\ fst (run (cursor inp true ms1) p pos) = EIo e"""),
+    ("C11_mp4_D11_is_all", """forall (cfg : config) (inp : input) (fuel : nat) (ms1 ms2 : N),
+  ilen inp <= ms1 -> ms1 <= ms2 -> ms2 <= U64MAX ->
+  (forall t, cumulative_mdat_box_size cfg = Some t -> t <= U32MAX) ->
+  mp4_sanitize cfg true ms1 inp fuel = mp4_sanitize cfg true ms2 inp fuel \\/
+  exists e, (e = EInvalidInput \\/ e = EInvalidData) /\\
+            mp4_sanitize cfg true ms1 inp fuel = EIo e /\\ is_ok (mp4_sanitize cfg true ms2 inp fuel) = false"""),
+    ("C11_webp_D11_is_all", """forall (lossless : N -> N -> bytes -> res unit) (allow : bool) (inp : input) (fuel : nat) (ms1 ms2 : N),
+  ilen inp <= ms1 -> ms1 <= ms2 -> (N.to_nat (ilen inp / 8) < fuel)%nat ->
+  webp_sanitize lossless allow true ms1 inp fuel = webp_sanitize lossless allow true ms2 inp fuel \\/
+  exists e, (e = EInvalidInput \\/ e = EInvalidData) /\\
+            webp_sanitize lossless allow true ms1 inp fuel = EIo e /\\ is_ok (webp_sanitize lossless allow true ms2 inp fuel) = false"""),
+    ("C11_mp4_views_differ_only_by_D11", """forall (cfg : config) (fuel : nat) (ms1 ms2 : N) (st1 st2 : stk) (e1 e2 : bool) (data : bytes),
+  stk_ok st1 -> stk_ok st2 -> blen data <= I64MAX -> ms_ok (blen data) ms1 -> ms_ok (blen data) ms2 -> ms1 <= ms2 ->
+  (forall t, cumulative_mdat_box_size cfg = Some t -> t <= U32MAX) ->
+  let r1 := fst (Prog.run (mp4_view e1 ms1 st1) (sanitize_prog cfg fuel) (mp4_view_init e1 ms1 st1 data)) in
+  let r2 := fst (Prog.run (mp4_view e2 ms2 st2) (sanitize_prog cfg fuel) (mp4_view_init e2 ms2 st2 data)) in
+  r1 = r2 \\/ exists e, (e = EInvalidInput \\/ e = EInvalidData) /\\ r1 = EIo e /\\ is_ok r2 = false"""),
+]
+REQUIRES_FOR = {"C11_stack_refines_cursor_at": _ATREQ, "C11_same_result_mp4_at": _ATREQ,
+                "C11_max_seek_only_adds_io": _DREQ, "C11_mp4_D11_is_all": _DREQ, "C11_webp_D11_is_all": _DREQ,
+                "C11_mp4_views_differ_only_by_D11": _DREQ}
+COQ_TARGETS = COQ_TARGETS + ["theories/Props/C11at.vo", "theories/Props/C11d.vo"]
+COQCHK = COQCHK + ["MS.Props.C11at", "MS.Props.C11d"]
 TRUSTED = [
     "Coq 8.16.1 kernel (coqc; coqchk in the thorough tier); vm_compute for C11_cursor_vs_file_refuted and the Examples; no native_compute",
     "axioms: none (Print Assumptions = Closed under the global context for every theorem)",
@@ -379,7 +409,10 @@ def known_class(ln, impl):
         return None
     file_views = [v for v in views if "file" in v]
     dv = [d.split(" => ")[0] for d in diffs]
-    if sorted(dv) == sorted(file_views) and all(d.endswith("=> err io InvalidInput") for d in diffs) and not first.startswith("err io InvalidInput"):
+    if sorted(dv) == sorted(file_views) and all(d.endswith("=> err io InvalidInput") for d in diffs) and not first.startswith("err io InvalidInput") \
+            and first.startswith("err"):
+        # C11_mp4_D11_is_all / C11_webp_D11_is_all: when the limited view answers Io the other one rejects too; an ACCEPTING in-memory view
+        # next to a failing file view is outside the finding
         return "D11"
     return None
 
